@@ -93,7 +93,13 @@ func genC13Pkg(t *rapid.T, modPath, dir, name string, importable []string, feats
 				feats["grouped-declarations"] = true
 			case 6:
 				// function with local declarations reusing package-level names
-				fmt.Fprintf(&b, "func fn%d_%d() {\n", fi, di)
+				if rapid.IntRange(0, 3).Draw(t, "asvar") == 0 {
+					// the body of a function literal that initialises a package-level variable is no FuncDecl
+					fmt.Fprintf(&b, "var fn%d_%d = func() {\n", fi, di)
+					feats["local-declarations-in-a-function-literal"] = true
+				} else {
+					fmt.Fprintf(&b, "func fn%d_%d() {\n", fi, di)
+				}
 				if len(defined) > 0 && rapid.Bool().Draw(t, "shadowlocal") {
 					ln := rapid.SampledFrom(defined).Draw(t, "ln")
 					fmt.Fprintf(&b, "\ttype %s struct{ Local bool }\n\t_ = %s{}\n", ln, ln)
